@@ -625,7 +625,7 @@ fn bfs_sentences(ctx: &Ctx, name: &str, ch: u8, timeout: u64, values: &[u8]) -> 
         set_age_cap(u64::MAX);
         k
     };
-    let out = bfs(ctx, BState { sc: new_scanner(timeout), sim: GSim::new(timeout) }, alphabet.len(), step, key, 6_000_000);
+    let out = bfs(ctx, BState { sc: new_scanner(timeout), sim: GSim::new(timeout) }, alphabet.len(), step, key, 400_000);
     let mut sub = Sub::new(
         name,
         &format!(
